@@ -19,7 +19,10 @@ RULE = ('Reference generator + E1: wire frames built from the grammar with '
         'method class x <=1-deviation vectors, and the dense interior sweeps '
         'of C01 reference-encoded; arrays of n values of one tag for each of '
         '17 tags and every n of 0..69, 100, 255, 256, 400 (sign-bit '
-        'payloads, all-same / alternating / one foreign element). Each frame is decoded by the '
+        'payloads, all-same / alternating / one foreign element); tag L with '
+        'the top bit set (signed in the library documentation, unsigned in '
+        'the specification) is held to ONE reading at every position and '
+        'array length. Each frame is decoded by the '
         'independent reference decoder and by the library; a case is one '
         'wire frame (or value encoding); non-trivial = all.')
 BOUNDS = {'quick': {'tags_8bit': 'all 256', 'tags_16bit': 'all 65536',
@@ -48,6 +51,7 @@ def tasks(tier, seed):
     out += [('methods', m.name) for m in spec_table.METHODS]
     out += [('dense',) + t for t in corpus.dense_tasks(tier)]
     out += [('tagarrays', t) for t in 'tbBsuIilLfdDSTFVx']
+    out += [('L-reading', part) for part in range(4)]
     return out
 
 
@@ -416,6 +420,8 @@ def run(task, ctx):
                 vb = b'A' + struct.pack('>I', len(body)) + body
                 check_value(ctx, vb, 'array of %d x tag %s' % (n, tag),
                             through_frame=(n % 8 == 0))
+    elif kind == 'L-reading':
+        run_l_reading(ctx, task[1])
     elif kind == 'dense':
         # interior values: the reference-encoded dense sweeps of C01
         for m, vec, ch in corpus.dense_cases(task[1:], ctx.tier):
@@ -436,7 +442,97 @@ def run(task, ctx):
                 check_frame(ctx, data, m.name)
 
 
+def run_l_reading(ctx, part):
+    """Tag 'L' with the top bit set.  The specification reads it unsigned,
+    the library documents a signed reading, so neither value is demanded -
+    but the decoder must take ONE reading everywhere: at top level, as a table
+    value, nested, and as the k-th of n array elements for every n of a dense
+    range.  The reading is probed once and every other position is held to
+    it (a differential oracle that stays silent for either reading)."""
+    p = lib.pamqp()
+    probe = p.decode.embedded_value(b'L' + b'\xff' * 8)[1]
+    if probe not in (-1, 2 ** 64 - 1):
+        ctx.violation('L-reading|probe', 'tag L payload ff*8 decoded as %r, '
+                      'neither the signed nor the unsigned reading' % (probe,),
+                      {'kind': 'L-reading', 'part': part}, '-1 or 2^64-1',
+                      repr(probe))
+        return
+    signed = probe == -1
+    pays = [b'\xff' * 8, b'\x80' + b'\x00' * 7, b'\x80' + b'\x00' * 6 +
+            b'\x01', b'\xfe' + b'\xce' * 7, b'\xc0\x00\x00\x00\xff\xff\xff'
+            b'\xff', b'\x9f' * 8]
+    low = [b'\x00' * 8, b'\x7f' + b'\xff' * 7, b'\x00' * 7 + b'\x07']
+    counts = list(range(1, 70)) + [100, 127, 128, 255, 256, 400]
+    counts = counts[part::4]
+
+    def want_of(q):
+        n = int.from_bytes(q, 'big')
+        return n - 2 ** 64 if signed and n >= 2 ** 63 else n
+
+    def expect(vb, want, label):
+        ctx.case(('L', vb), True, sample=lambda: {
+            'value_bytes': vb.hex()[:80], 'label': label,
+            'reading': 'signed' if signed else 'unsigned'})
+        case = {'kind': 'value-L', 'hex': vb.hex(), 'label': label}
+        try:
+            consumed, got = p.decode.embedded_value(vb)
+        except Exception as exc:  # noqa
+            ctx.outcome('rejected')
+            ctx.violation('L-reading|' + label, '%s: decode.embedded_value '
+                          'rejected a well-formed value: %r (%s)' % (
+                              label, exc, vb.hex()[:120]), case, 'accepted',
+                          repr(exc))
+            return
+        ctx.calls()
+        ctx.valid()
+        if consumed != len(vb) or got != want or \
+                lib.canon(got) != lib.canon(want):
+            ctx.outcome('mismatch')
+            ctx.violation('L-reading|' + label, '%s: tag L is read %s at top '
+                          'level (ff*8 -> %d) but here the decoder returned '
+                          '%s where that reading gives %s (%s)' % (
+                              label, 'signed' if signed else 'unsigned',
+                              probe, short(got, 120), short(want, 120),
+                              vb.hex()[:120]), case, short(want), short(got))
+        else:
+            ctx.outcome('ok')
+
+    for q in pays:
+        w = want_of(q)
+        if part == 0:
+            expect(b'L' + q, w, 'L top level')
+            t = raw_table([('k', b'L' + q), ('j', b'L' + low[1])])
+            expect(b'F' + t, {'k': w, 'j': want_of(low[1])}, 'L table value')
+            t2 = raw_table([('n', b'F' + t)])
+            expect(b'F' + t2, {'n': {'k': w, 'j': want_of(low[1])}},
+                   'L nested table value')
+        for n in counts:
+            # all n elements with the top bit set
+            body = (b'L' + q) * n
+            expect(b'A' + struct.pack('>I', len(body)) + body, [w] * n,
+                   'array of %d x L (top bit set)' % n)
+            # one such element first / middle / last among small ones
+            for pos in sorted({0, n // 2, n - 1}):
+                items = [b'L' + low[i % 3] for i in range(n)]
+                wants = [want_of(low[i % 3]) for i in range(n)]
+                items[pos] = b'L' + q
+                wants[pos] = w
+                body = b''.join(items)
+                expect(b'A' + struct.pack('>I', len(body)) + body, wants,
+                       'array of %d x L, top bit set at %d' % (n, pos))
+            if n in (1, 16, 17, 64, 400):
+                body = (b'L' + q) * n
+                arr = b'A' + struct.pack('>I', len(body)) + body
+                t = raw_table([('a', arr)])
+                expect(b'F' + t, {'a': [w] * n},
+                       'array of %d x L inside a table' % n)
+
+
 def replay(case, ctx):
+    if case['kind'] == 'value-L':
+        for part in range(4):
+            run_l_reading(ctx, part)
+        return
     data = bytes.fromhex(case['hex'])
     if case['kind'] == 'value':
         check_value(ctx, data, case.get('label', ''), through_frame=True)
